@@ -40,6 +40,28 @@ def rewrite(kind, repo):
 
 
 def make_modfile(kind, repo, scratch):
+    """Dependencies cannot be overlaid; a seam inside one is reached with -modfile and a replace
+    directive pointing at a scratch copy of the module (DESIGN §3.3)."""
+    if kind == "robustinternal":
+        import subprocess
+        moddir = subprocess.run(["go", "list", "-m", "-f", "{{.Dir}}", "github.com/robustirc/internal"], cwd=repo, capture_output=True, text=True,
+                                env=dict(os.environ, GOFLAGS="-mod=mod", GOPROXY="off", GOSUMDB="off")).stdout.strip()
+        if not moddir or not os.path.isdir(moddir):
+            raise RuntimeError("cannot locate module github.com/robustirc/internal")
+        dst = os.path.join(scratch, "mods", "robustirc-internal")
+        if not os.path.isdir(dst):
+            shutil.copytree(moddir, dst)
+            for root, dirs, files in os.walk(dst):
+                os.chmod(root, 0o755)
+                for f in files:
+                    os.chmod(os.path.join(root, f), 0o644)
+            shutil.copy(os.path.join(VERIF, "sim", "modoverride", "robusthttp_verif_override.go"), os.path.join(dst, "robusthttp", "zz_verif_override.go"))
+        mf = os.path.join(scratch, "alt.mod")
+        mod = open(os.path.join(repo, "go.mod")).read()
+        mod += "\nreplace github.com/robustirc/internal => %s\n" % dst
+        open(mf, "w").write(mod)
+        shutil.copy(os.path.join(repo, "go.sum"), os.path.join(scratch, "alt.sum"))
+        return mf
     raise RuntimeError("unknown modfile kind " + kind)
 
 
@@ -99,6 +121,15 @@ ENGINES = {
         "gomaxprocs": 2,
         "chunk": {"quick": 100, "thorough": 1000},
         "kind": "C09 harness: real LevelDBStore + goleveldb on real files through a counting/forking storage.Storage wrapper; plain-map model",
+    },
+    "c19": {
+        "pkg": "./internal/timesafeguard",
+        "virtual": ["core"],
+        "add": {"internal/timesafeguard/zz_verif_c19_test.go": "sim/c19/c19_test.go"},
+        "modfile": "robustinternal",
+        "gomaxprocs": 1,
+        "chunk": {"quick": 500, "thorough": 5000},
+        "kind": "C19 harness: real timesafeguard + health.GetServerStatus over a simulated wire (robusthttp client override) inside a synctest bubble",
     },
     "e3/c08": {
         "pkg": "./internal/outputstream",
@@ -171,6 +202,22 @@ CHECKS = {
 }
 
 CHECKS.update({
+    "C19": {
+        "engine": "c19",
+        "runs": {"quick": 20000, "thorough": 2000000},
+        "level": "exploration",
+        "rule": ("scenario = 0-5 simulated peers, each with a true clock offset (concentrated around +-2s, also 0, +-300ms, up to +-1h, exact +-1999/2000/2001ms), request and response delays 0-3s, "
+                 "and an answer mode (ok / dropped request = 5s timeout in virtual time / HTTP 500 / connection refused / garbage body); both entry points (restart path, join path); safeguard flag on/off; "
+                 "non-trivial = >=1 peer answered and the safeguard is on; distinct = digest of the whole configuration"),
+        "probes": ["accepted", "refused", "answering_offenders", "silent_peers", "offsets_near_threshold"],
+        "components": {"real": ["internal/timesafeguard (collectTime, worstCaseDrift, synchronizedWithNetwork, both exported entry points)", "robustirc/internal/health.GetServerStatus (request construction, 5s context timeout, JSON decoding)"],
+                       "stubbed": ["robusthttp.Client -> simulated wire with per-peer virtual delays and clock offsets (documented override point clientImpl, reached through a -modfile replace of a scratch copy)", "peers' status handlers", "log.Fatalf path when the node to join does not answer (not exercised)"]},
+        "claim": ("Soundness of the start-up time check over all sampled offsets/delays/answer modes, with real code from the entry points down to the HTTP client seam: whenever the check lets the node join with the safeguard on, every peer that answered has a true clock difference < 2s; "
+                  "offenders are named in the refusal; silent peers alone never cause a refusal nor hide an answering offender; the disabled flag always lets the node join."),
+        "note": "virtual time from testing/synctest; the true offset is known to the simulator only; main()'s call sites (robustirc.go) are not executed.",
+        "technique": "deterministic simulation: simulated peers with clock skew, message delay, loss and errors under a virtual clock; soundness oracle over the true offsets",
+        "assumptions": ["peers read their clock between request arrival and response departure"],
+    },
     "C09": {
         "engine": "c09",
         "runs": {"quick": 3000, "thorough": 300000},
